@@ -143,6 +143,7 @@ func (c09) Generate(r *rand.Rand, tier string) (sim.Config, any) {
 	}
 	r.Shuffle(len(p.Clients), func(i, j int) { p.Clients[i], p.Clients[j] = p.Clients[j], p.Clients[i] })
 	p.Panel = GenPanel(r, schema, p.IDPool, 6)
+	addStalls(r, &cfg)
 	return cfg, p
 }
 
